@@ -4,6 +4,8 @@ C13 helper lemmas (5): `population.sort(key=fitness, reverse=True)` (cma.py:133)
 import DeapModel.Core.Cma
 import Mathlib.Order.Defs.LinearOrder
 import Mathlib.Data.List.Nodup
+import DeapModel.RealInst
+import Mathlib.Data.List.Lex
 
 open Cma
 
@@ -36,5 +38,47 @@ theorem sortDesc_best (pop : List (K × V)) (mu : Nat) :
   have h := sortDesc_sorted pop
   rw [← List.take_append_drop mu (sortDesc pop), List.pairwise_append] at h
   exact h.2.2
+
+/-! #### The real sort key: `FitKey ℝ` under the model's `lexLt` -/
+
+/-- the model's fitness comparison at ℝ is the lexicographic order of the weighted-value tuples -/
+theorem lexLt_iff (a b : List ℝ) : lexLt a b = true ↔ a < b := by
+  induction a generalizing b with
+  | nil => cases b <;> simp [lexLt]
+  | cons x xs ih =>
+    cases b with
+    | nil => simp [lexLt]
+    | cons y ys =>
+      simp only [lexLt, List.cons_lt_cons_iff, RealLike.real_lt]
+      by_cases h1 : x < y
+      · simp [h1]
+      · by_cases h2 : y < x
+        · have : x ≠ y := fun e => by subst e; exact lt_irrefl _ h2
+          simp [h1, h2, this]
+        · have : x = y := le_antisymm (not_lt.mp h2) (not_lt.mp h1)
+          subst this
+          simp [ih]
+
+theorem FitKey.ext' {a b : FitKey ℝ} (h : a.wvalues = b.wvalues) : a = b := by
+  cases a; cases b; simp_all
+
+/-- `FitKey ℝ` with **the model's own `<`** (`lexLt` on the weighted values) is a linear order. -/
+noncomputable instance fitKeyLinearOrder : LinearOrder (FitKey ℝ) where
+  lt a b := lexLt a.wvalues b.wvalues = true
+  le a b := a.wvalues ≤ b.wvalues
+  le_refl a := le_refl a.wvalues
+  le_trans a b c := le_trans (a := a.wvalues)
+  le_antisymm a b h1 h2 := FitKey.ext' (le_antisymm h1 h2)
+  le_total a b := le_total a.wvalues b.wvalues
+  lt_iff_le_not_ge a b := by
+    show lexLt a.wvalues b.wvalues = true ↔ _
+    rw [lexLt_iff]; exact lt_iff_le_not_ge
+  toDecidableLE := fun _ _ => Classical.dec _
+  toDecidableEq := fun _ _ => Classical.dec _
+  toDecidableLT := fun a b => inferInstanceAs (Decidable (lexLt a.wvalues b.wvalues = true))
+
+/-- the order structure is the model's own: same `<`, same decision procedure (by `rfl`) -/
+theorem fitKeyLinearOrder_lt : (fitKeyLinearOrder.toLT : LT (FitKey ℝ)) = Cma.fitKeyLT := rfl
+theorem fitKeyLinearOrder_decLt : (fitKeyLinearOrder.toDecidableLT : DecidableLT (FitKey ℝ)) = Cma.fitKeyDecLT := rfl
 
 end C13L
